@@ -126,10 +126,17 @@ class World:
                     extras["stream_expected_pos"] = off
                     if not stream.closed:
                         stream.close()
+            if out.ok and hasattr(out.value, "cid"):
+                if not hasattr(self, "returned_cids"):
+                    self.returned_cids = {}
+                self.returned_cids[op["content"]] = out.value.cid
             return out, extras
         if kind == "tag":
             self.pids.add(op["pid"])
-            return call(st.tag_object, op["pid"], self.model.cid_of_spec(op["cid"])), extras
+            cid = self.model.cid_of_spec(op["cid"])
+            if op["cid"][0] == "returned":
+                cid = getattr(self, "returned_cids", {}).get(op["cid"][1], cid)
+            return call(st.tag_object, op["pid"], cid), extras
         if kind == "delete":
             return call(st.delete_object, op["pid"]), extras
         if kind == "dii":
